@@ -246,7 +246,7 @@ type streamScenario struct {
 
 func unitEvents(bs *builtStream, rec *recorder) {
 	for _, u := range bs.units {
-		rec.ev(M{"ev": "unit", "id": u.spec.ID, "pid": u.spec.PID, "t": u.spec.T, "items": u.items, "lastpkt": u.lastPkt, "firstpkt": u.firstPk, "npk": u.npk, "gpk": u.gpk})
+		rec.ev(M{"ev": "unit", "id": u.spec.ID, "pid": u.spec.PID, "t": u.spec.T, "items": u.items, "lastpkt": u.lastPkt, "firstpkt": u.firstPk, "npk": u.npk, "gpk": u.gpk, "opt": u.opt})
 	}
 }
 
@@ -847,13 +847,16 @@ func runRFault(sc *streamScenario, rec *recorder, level int) {
 			run.PSize = -1
 		}
 		for _, api := range []string{"data", "packet"} {
-			for _, seek := range []bool{true, false} {
-				rec.ev(M{"ev": "reset", "t": fmt.Sprintf("%s/%v/%s/%v", sc.SID, auto, api, seek), "kind": "rfault", "sid": sc.SID, "auto": auto, "api": api})
+			for _, rkind := range []string{"seek", "plain", "bufio"} {
+				seek := rkind == "seek"
+				rec.ev(M{"ev": "reset", "t": fmt.Sprintf("%s/%v/%s/%s", sc.SID, auto, api, rkind), "kind": "rfault", "sid": sc.SID, "auto": auto, "api": api})
 				// fault-free reference with the same kind of reader
 				{
 					var rr io.Reader = bytes.NewReader(bs.bytes)
-					if !seek {
+					if rkind == "plain" {
 						rr = plainReader{rr}
+					} else if rkind == "bufio" {
+						rr = newBufio(plainReader{rr})
 					}
 					dmx := newDemuxer(rr, run)
 					for k := 0; k < bound; k++ {
@@ -886,8 +889,10 @@ func runRFault(sc *streamScenario, rec *recorder, level int) {
 							fsr := &failSeekReader{failReader{b: bs.bytes, failAt: off, partial: partial}}
 							fr = &fsr.failReader
 							r = fsr
+						} else if rkind == "bufio" {
+							r = bufio.NewReaderSize(fr, []int{4096, 256, 193}[off%3]) // auto-detection peeks 193 bytes: smaller buffers cannot be used with it
 						}
-						rec.ev(M{"ev": "rstart", "off": off, "partial": partial, "seek": seek})
+						rec.ev(M{"ev": "rstart", "off": off, "partial": partial, "seek": seek, "rkind": rkind})
 						dmx := newDemuxer(r, run)
 						for k := 0; k < bound; k++ {
 							before := fr.fired
